@@ -17,7 +17,7 @@ RULE = ('quick: every outline AST with <=4 nodes and nesting <=2 over {step, if/
         'the script prefix actually consumed (exhaustive for that scope); thorough adds 5-node ASTs (sampled) and random ASTs to depth 4 with '
         'scripts to length 12; non-trivial when at least one predicate or >=2 calls were made')
 ASSUMPTIONS = ['predicates return real booleans', 'ToContext returns are C10\'s business', 'interpreter written from the property statement']
-REQUIRED = ['runs', 'ended/return', 'ended/value', 'ended/end', 'nodes/if', 'nodes/while', 'nodes/ret', 'calls_compared', 'falsy_stop_values', 'steps_registering_awaitables', 'value_with_awaitable']
+REQUIRED = ['runs', 'ended/return', 'ended/value', 'ended/end', 'nodes/if', 'nodes/while', 'nodes/ret', 'calls_compared', 'falsy_stop_values', 'steps_registering_awaitables', 'value_with_awaitable', 'described_first']
 EXHAUSTIVE = {'quick': True, 'thorough': False}
 BOUNDS = {'quick': 'ASTs <=4 nodes depth<=2, predicate scripts <=4, exhaustive after de-duplication', 'thorough': '+5-node ASTs sampled, 4000 random ASTs depth<=4'}
 STOPVALS = [0, '', False, 7]
@@ -52,7 +52,7 @@ def gen_cases(tier, seed):
                     if key in seen:
                         continue
                     seen.add(key)
-                    yield {'ast': ast, 'preds': p[:np] if np <= len(p) else p, 'rets': r[:ns]}
+                    yield {'ast': ast, 'preds': p[:np] if np <= len(p) else p, 'rets': r[:ns], 'describe': len(seen) % 5 == 0}
                     if how == 'value' or len(seen) % 8 == 0:
                         # the same run with every step also registering an awaitable through to_context()
                         yield {'ast': ast, 'preds': p[:np] if np <= len(p) else p, 'rets': r[:ns], 'awaits': True}
@@ -75,12 +75,17 @@ def gen_cases(tier, seed):
 def run_case(case):
     ast, preds, rets = case['ast'], case['preds'], case['rets']
     exp_trace, exp_result, how = outlines.interpret(ast, preds, rets)
-    obs = {'runs': 1, 'ended': {how: 1}, 'nodes': {}, 'calls_compared': 0, 'falsy_stop_values': 0}
+    obs = {'runs': 1, 'ended': {how: 1}, 'nodes': {}, 'calls_compared': 0, 'falsy_stop_values': 0, 'described_first': 0}
     if how == 'budget':
         return {'viol': [], 'obs': obs, 'inconclusive': 'interpreter-budget', 'key': case, 'nontrivial': False}
     cls = outlines.outline_class(ast)
     viol = []
     V = judges.V
+    if case.get('describe'):
+        # asking for the description of the outline (spec / process description, str()) must not change what it does
+        cls.spec().get_description()
+        str(cls.spec())
+        obs['described_first'] = 1
     awaits = bool(case.get('awaits'))
     obs['steps_registering_awaitables'] = int(awaits and any(t.startswith('s') for t in exp_trace))
     obs['value_with_awaitable'] = int(awaits and how == 'value')
